@@ -1,0 +1,9 @@
+//go:build verif
+
+package caddypki
+
+// VerifRenewCerts runs one pass of certificate maintenance — exactly what
+// the ticker of maintenance() does every 10 minutes — synchronously on the
+// calling goroutine, so that a verification harness can interrupt a renewal
+// that happens while the process is running (as opposed to at Start).
+func (p *PKI) VerifRenewCerts() { p.renewCerts() }
